@@ -96,12 +96,15 @@ class Environment:
             Use the operators ``|`` ("any"), ``&`` ("all") or ``~`` ("not") to
             combine events, as in ``flag1 & flag2 | ~flag3``.
     """
-    __slots__ = '_initial_time', '_startup', '_loop', '_scope', 'active_process'
+    __slots__ = '_initial_time', '_startup', '_loop', '_scope', 'active_process',\
+                '_final_time'
 
     def __init__(self, initial_time=0):
         self._initial_time = initial_time
         self._startup = []  # type: List[Tuple[Coroutine, float]]
         self._loop = None  # type: Optional[AbstractLoop]
+        #: time at which the environment stopped running
+        self._final_time = None  # type: Optional[float]
         self._scope = EnvironmentScope()
         #: The currently active process
         self.active_process = None  # type: Optional[Process]
@@ -134,9 +137,13 @@ class Environment:
                         await (time >= until)
                     raise StopSimulation
         except Concurrent as err:
+            self._final_time = time.now
             raise err.children[0]
         except StopSimulation:
             pass
+        # the environment cannot resume: its clock stops here, even if
+        # the event loop still skips over obsolete wake-ups afterwards
+        self._final_time = time.now
 
     def run(
         self, until: 'Union[None, float, Event[V]]' = None
@@ -202,6 +209,8 @@ class Environment:
         """
         if self._loop is None:
             return self._initial_time
+        if self._final_time is not None:
+            return self._final_time
         return self._loop.time
 
     def schedule(self, event: 'Union[Event, Coroutine]', priority=1, delay=0):
